@@ -98,13 +98,24 @@ func TomlKeyToEvCode(key string, lookupTable map[string]evdev.EvCode) (evdev.EvC
 
 }
 
+// decodeTOML turns panics of the toml library into errors: go-toml panics (reflect.Set) on valid TOML
+// whose value type does not fit the target field, e.g. a date literal where a number is expected
+func decodeTOML(d *toml.Decoder, v interface{}) (err error) {
+	defer func() {
+		if r := recover(); r != nil {
+			err = fmt.Errorf("toml decoder failed: %v", r)
+		}
+	}()
+	return d.Decode(v)
+}
+
 func ParseData(data []byte) (Config, error) {
 	cfg := TOMLDeviceConfig{}
 
 	d := toml.NewDecoder(bytes.NewReader(data))
 	d.DisallowUnknownFields()
 
-	err := d.Decode(&cfg)
+	err := decodeTOML(d, &cfg)
 	if err != nil {
 		return Config{}, fmt.Errorf("parsing failed: %w", err)
 	}
